@@ -72,6 +72,9 @@ def check_recreate_wiring(ctx, wm: WeaverModel, rule='C02.2'):
                 and [k for k, _ in inst.kwargs] == ['**'] and isinstance(inst.kwargs[0][1], Term) and inst.kwargs[0][1].head == 'param' \
                 and veq(inst.kwargs[0][1].args[0], Const('**kwargs'))       # the caller's options, unfiltered
         ctx.check(ok, rule, 'recreate_from_average: (x, y) <- rfa_class(self.x, self.y, n, **kwargs).rfa()', f"x = {show(vx, 240)}", mr.fi.loc(), mr.fi.qualname, 'rfa-call')
+        cond = [str(g)[:100] for e_ in (ls['x'][-1], ls['y'][-1]) for g in e_.guard]
+        ctx.check(not cond, rule, 'recreate_from_average: the strategy is instantiated and run on every call (its own argument checks - n < 2 - are the '
+                                  'Weaver\'s; no shortcut returns without it)', f"only when {cond[:3]}", mr.fi.loc(), mr.fi.qualname, 'rfa-always')
     a = mr.fi.node.args
     ps = mr.fi.params()
     dflt = dict(zip(ps[len(ps) - len(a.defaults):], a.defaults)).get('rfa_class')
